@@ -14,8 +14,24 @@ Definition m_xml : str := [47;120;109;108]%N.                              (* /x
 
 Definition has_body (meth : str) : bool := str_eqb meth POST || str_eqb meth PUT || str_eqb meth PATCH.
 
-(* binding.Auto's dispatch *)
+(* binding.Auto's dispatch: on the media type - the text of the Content-Type before the first ';', trimmed - by its
+   subtype (strings.HasSuffix). (Repair F20; before it the four tests were strings.Contains on the whole header value.) *)
+Fixpoint upto_semi (s : str) : str :=
+  match s with [] => [] | c :: r => if N.eqb c 59%N then [] else c :: upto_semi r end.
+Definition media_type (ctype : str) : str := trim_space (upto_semi ctype).
+Definition has_suffix (suf s : str) : bool := has_prefix (rev suf) (rev s).       (* strings.HasSuffix *)
+
 Definition auto_source (meth ctype : str) : source :=
+  if negb (has_body meth) then SQuery
+  else let mt := media_type ctype in
+    if has_suffix m_urlencoded mt then SForm
+    else if has_suffix m_formdata mt then SMultipart
+    else if has_suffix m_json mt then SJson
+    else if has_suffix m_xml mt then SXml
+    else SError.
+
+(* the dispatch before repair F20 *)
+Definition auto_source_legacy (meth ctype : str) : source :=
   if negb (has_body meth) then SQuery
   else if contains m_urlencoded ctype then SForm
   else if contains m_formdata ctype then SMultipart
